@@ -137,6 +137,13 @@ def pause_next_to_failure(ctx, i):
     ctx.case({"pause-next-to-failure": len(inner_nodes), "wrapped": sub["name"]}, True)
 
 
+class _NoStr(Exception):
+    """A node failure whose exception cannot be turned into text (its __str__ raises)."""
+
+    def __str__(self):
+        return "failed in %d" % self.args[0]  # args[0] is a str: TypeError
+
+
 class FlakySetCache:
     """A user-supplied backend whose k-th write fails (quota, full disk): reads and the other writes work."""
 
@@ -175,7 +182,7 @@ def variants(ctx, fam):
     case = {"family": fam["family"], "spec": spec, "inputs": inputs}
     fids = [f for f, ns in all_fids(spec).items() if ns["k"] == "fn"]
     # failing nodes; half of the exceptions have an EMPTY message (a failure is a failure whatever str(e) is)
-    fails = [None] + ([{f: (RuntimeError(f"boom {f}") if rng.random() < 0.5 else RuntimeError())} for f in rng.sample(fids, min(2, len(fids)))] if fids else [])
+    fails = [None] + ([{f: (RuntimeError(f"boom {f}") if rng.random() < 0.4 else RuntimeError() if rng.random() < 0.5 else _NoStr(f))} for f in rng.sample(fids, min(2, len(fids)))] if fids else [])
     flaky_at = rng.randint(1, 4) if fam["family"] == "cached" and rng.random() < 0.5 else None
     flaky_get = flaky_at is not None and rng.random() < 0.5
     nstreams = 0
